@@ -224,11 +224,12 @@ func listedReqHdrs(c Cfg) (star, auth bool, names []string) {
 func Suite(c Cfg) []Req {
 	allowed, near := originPools(c)
 	var origins []string
-	if len(allowed) > 3 {
-		allowed = allowed[:3]
+	// one allowed instance per listed pattern (two for the first ones) so that no pattern goes unprobed
+	if len(allowed) > 9 {
+		allowed = append(allowed[:2:2], everyOther(allowed[2:], 7)...)
 	}
-	if len(near) > 4 {
-		near = near[:4]
+	if len(near) > 6 {
+		near = everyOther(near, 6)
 	}
 	origins = append(origins, allowed...)
 	origins = append(origins, near...)
@@ -304,6 +305,18 @@ func Suite(c Cfg) []Req {
 		Req{Method: "OPTIONS", Hdr: []HV{{hOrigin, nil}, {hACRM, Vals("GET")}}},
 	)
 	return suite
+}
+
+// everyOther picks up to n entries spread evenly over xs (deterministic).
+func everyOther(xs []string, n int) []string {
+	if len(xs) <= n {
+		return xs
+	}
+	out := make([]string, 0, n)
+	for i := 0; i < n; i++ {
+		out = append(out, xs[i*len(xs)/n])
+	}
+	return out
 }
 
 func dedupe(xs []string) []string {
